@@ -15,6 +15,10 @@ type c09T struct {
 	p int
 }
 
+type c09Str struct{ N int }
+
+func (s c09Str) String() string { return "str" }
+
 var c09Ints = []int64{0, 1, -1, 7, -9223372036854775808, 9223372036854775807}
 var c09Floats = []float64{0, 1.5, -2.5, 1e300}
 
@@ -22,7 +26,7 @@ var c09Floats = []float64{0, 1.5, -2.5, 1e300}
 var c09ConcreteStrings = false
 
 func symData(name string, depth int) any {
-	nk := 20
+	nk := 22
 	if depth <= 0 {
 		nk = 9
 	}
@@ -60,6 +64,13 @@ func symData(name string, depth int) any {
 		return [2]int{1, 2}
 	case 14:
 		return []any{[0]string{}, complex(1, 2)}
+	case 19: // nil pointers whose type has a value-receiver String method (time.Time-like), top level and in a field
+		return (*c09Str)(nil)
+	case 20:
+		return []any{struct {
+			DeletedAt *c09Str
+			D         c09Str
+		}{nil, c09Str{3}}}
 	case 17: // a struct whose exported pointer field is nil, directly and behind a pointer inside a slice
 		return struct {
 			P *c09T
